@@ -182,7 +182,8 @@ class C05(Property):
         # near misses of a declared label in an Aspartix file: not an argument of the framework
         for (apath, afmt, alabels, _aatts, _an) in [f for f in files if f[1] == "apx" and f[2]][:3]:
             lab = alabels[0]
-            for bad in (lab + "x", lab[:-1] or "q", lab.swapcase() if lab.swapcase() != lab else lab + "_", " " + lab + "z"):
+            for bad in (lab + "x", lab[:-1] or "q", lab.swapcase() if lab.swapcase() != lab else lab + "_", " " + lab + "z",
+                        lab + ".x", lab + " y", "1" + lab, lab + "-1", "(" + lab + ")", lab + ","):
                 if bad not in alabels and bad.strip() not in alabels:
                     errs.append(["solve", "-f", apath, "-r", "apx", "-p", "DC-CO", "-a", bad])
         for e in errs:
